@@ -7,6 +7,7 @@ package operators
 
 import (
 	"fmt"
+	"strings"
 
 	ahocorasick "github.com/petar-dambovaliev/aho-corasick"
 
@@ -45,7 +46,8 @@ func newPMFromDataset(options plugintypes.OperatorOptions) (plugintypes.Operator
 		DFA:                  true,
 	})
 
-	m, _ := memoizeDo(options.Memoizer, data, func() (any, error) { return builder.Build(dataset), nil })
+	// The key carries the content: two WAFs may define different data sets under one name.
+	m, _ := memoizeDo(options.Memoizer, "pmFromDataset:"+strings.Join(dataset, "\x00"), func() (any, error) { return builder.Build(dataset), nil })
 
 	return &pm{matcher: m.(ahocorasick.AhoCorasick), minLen: minPatternLen(dataset)}, nil
 }
